@@ -1,5 +1,6 @@
 import BppProofs.Lemmas.OptimBrent
 import BppProofs.Lemmas.OptimObjective
+import BppProofs.Lemmas.OptimSync
 /-!
 # C10, part 6 — BrentOneDimension in full (outward and inward bracketing)
 
@@ -87,5 +88,38 @@ theorem brent_descent_objective (obj : List ℝ → ℝ) (D : Deriv ℝ) (cap : 
     brent_descent _ _ (objective_det obj D cap pt0 k) fuel fuel' s s1 s2 [q] _ v hJ hx0 hinit hopt
   simp only [Spec.descent, ScalarReal.leb_iff] at h1
   exact ⟨h1, x, hxs, hvx, h4⟩
+
+/-- `brent_descent` for the objective of the harness searched along a coordinate whose parameter has
+**any constraint** (interval or none) and either dynamic type, under any of the three policies — only
+precision 0 and a feasible starting value are assumed.  Under the automatic policy a request outside
+the constraint is corrected by `AutoParameter::setValue`: the abscissae Brent's method books may differ
+from the points the objective is evaluated at, but the value returned is still the objective at what
+the optimiser's parameter holds, and not above the objective at the starting value. -/
+theorem brent_descent_objective_con (obj : List ℝ → ℝ) (D : Deriv ℝ) (cap : Option Nat) (pt0 : List ℝ) (k : Nat) (hk : k < pt0.length)
+    (q : NP ℝ) (hq : q.name = k) (hp : q.p.precision = 0) (hi : q.p.invOk = true)
+    (fuel fuel' : Nat) (s s1 s2 : St (Fn ℝ) (Brent ℝ) ℝ) (v : ℝ) (hpt : s.fn.point = pt0)
+    (hinit : (brentAlgo (Fn.iface obj D cap) fuel).init s [q] = .ok s1)
+    (hopt : brentOptimize (Fn.iface obj D cap) fuel' s1 = .ok (s2, v)) :
+    v ≤ obj (pt0.set k q.p.value) ∧ ∃ x, value0 s2.core.params = some x ∧ v = obj (pt0.set k x) ∧ s2.core.cur = v := by
+  obtain ⟨p0, hap, hp0v, hp0p, hp0i⟩ := applyPolicy_single s.core.policy q
+  have hp0prec : p0.precision = 0 := by rw [hp0p]; exact hp
+  have hp0inv : p0.invOk = true := hp0i hi
+  rw [hq] at hap
+  have hJ : AlongP pt0 k p0 s.fn (applyPolicy s.core.policy [q]) := by
+    rw [hap]
+    exact ⟨⟨p0.value, by rw [reval_self], hp0inv⟩, hk, by rw [hpt], fun _ _ => by rw [hpt]⟩
+  have hx0 : value0 (applyPolicy s.core.policy [q]) = some q.p.value := by
+    rw [hap]; simp [value0, hp0v]
+  obtain ⟨h1, -, -, h4, x, hvx, hxs, hJ2⟩ :=
+    brent_descent _ _ (objective_det_con obj D cap pt0 k p0 hp0prec hp0inv) fuel fuel' s s1 s2 [q] _ v hJ hx0 hinit hopt
+  simp only [Spec.descent, ScalarReal.leb_iff] at h1
+  have hc0 : corr p0 q.p.value = q.p.value := by
+    rw [← hp0v]; exact corr_accepted p0 _ hp0prec hp0inv hp0inv
+  rw [hc0] at h1
+  refine ⟨h1, x, hxs, ?_, h4⟩
+  obtain ⟨⟨w, hw, hacc⟩, -⟩ := hJ2
+  have hwx : w = x := by
+    rw [hw] at hxs; simpa [value0] using hxs
+  rw [hvx, ← hwx, corr_accepted p0 w hp0prec hp0inv hacc]
 
 end Bpp.C10
